@@ -5,7 +5,7 @@
 From Coq Require Import ZArith List Bool.
 Import ListNotations.
 From Verif Require Import CallConv.FuncDetailModel CallConv.Abi CallConv.AbiLink CallConv.AbiProofs
-  CallConv.ShuffleModel CallConv.ShuffleProofs CallConv.ShuffleFindings CallConv.ShuffleBytesModel CallConv.ShuffleBytesProofs CallConv.SolverModel CallConv.SolverProofs CallConv.SolverFullModel CallConv.SolverFullProofs CallConv.SolverFullProofs2 CallConv.SolverFullProofs3 CallConv.DecodeModel CallConv.DecodeSpec CallConv.DecodeProofs CallConv.DecodeSpecVec CallConv.DecodeVecProofs CallConv.AbiVariadic CallConv.AbiWfProofs.
+  CallConv.ShuffleModel CallConv.ShuffleProofs CallConv.ShuffleFindings CallConv.ShuffleBytesModel CallConv.ShuffleBytesProofs CallConv.SolverModel CallConv.SolverProofs CallConv.SolverFullModel CallConv.SolverFullProofs CallConv.SolverFullProofs2 CallConv.SolverFullProofs3 CallConv.SolverFullProofs4 CallConv.SolverFullProofs5 CallConv.SolverFullProofs6 CallConv.SolverFullProofs7 CallConv.SolverFullProofs8 CallConv.DecodeModel CallConv.DecodeSpec CallConv.DecodeProofs CallConv.DecodeSpecVec CallConv.DecodeVecProofs CallConv.DecodeComplete CallConv.AbiVariadic CallConv.AbiWfProofs.
 From VerifGen Require C06Tables.
 Local Open Scope Z_scope.
 
@@ -277,6 +277,69 @@ Print Assumptions C06_full_solver_stores_examples.
 Theorem C06_full_solver_slots_disjointb_sound : forall vs, slots_disjointb vs = true -> slots_disjoint vs.
 Proof. exact slots_disjointb_sound. Qed.
 Print Assumptions C06_full_solver_slots_disjointb_sound.
+(* Round 6.  The READ side and the validator's byte-range check, as theorems about the function: every instruction that reads memory reads
+   the incoming slot of one original variable, into a register, a positive whole number of bytes and no more than the variable's source type
+   has; hence (stores being exact too) when destination slots and incoming slots of the assignment are pairwise disjoint byte ranges
+   (decidable slots_okb, a condition on the INPUT only) the byte-range check mem_ranges_ok of validate_bytes holds for the emitted sequence
+   - it is discharged by proof instead of being evaluated per sequence.  Both side conditions are necessary (executed examples). *)
+Theorem C06_full_solver_loads_exact : forall a wgp wvec vs0 ms, fwf_inputb wgp wvec vs0 = true -> farch_okb a vs0 = true -> fsolve a wgp wvec vs0 = SOk ms ->
+  forall i, In i ms -> load_exact vs0 i.
+Proof. exact fsolve_loads_exact. Qed.
+Print Assumptions C06_full_solver_loads_exact.
+Theorem C06_full_solver_loads_bytes : forall a wgp wvec vs0 ms, fwf_inputb wgp wvec vs0 = true -> farch_okb a vs0 = true -> fsolve a wgp wvec vs0 = SOk ms ->
+  forall d ar off e n w wz, In (IExt d (Mem ar off) e n w wz) ms -> n mod 8 = 0.
+Proof. exact fsolve_loads_bytes. Qed.
+Print Assumptions C06_full_solver_loads_bytes.
+Theorem C06_full_solver_mem_ranges_ok : forall a wgp wvec vs0 ms, fwf_inputb wgp wvec vs0 = true -> farch_okb a vs0 = true -> a <> FX86 ->
+  fsolve a wgp wvec vs0 = SOk ms -> slots_okb vs0 = true -> mem_ranges_ok ms = true.
+Proof. exact fsolve_mem_ranges_ok. Qed.
+Print Assumptions C06_full_solver_mem_ranges_ok.
+Theorem C06_full_solver_mem_ranges_example :
+  slots_okb ex_mixed = true /\
+  match fsolve FX64 ex_wgp ex_wvec ex_mixed, fsolve FA64 ex_wgp ex_wvec ex_mixed with
+  | SOk m1, SOk m2 => mem_ranges_ok m1 = true /\ mem_ranges_ok m2 = true /\ accesses m1 = Some [(0, 8, 16); (1, 0, 32); (1, 8, 64); (0, 16, 32)]
+  | _, _ => False
+  end.
+Proof. exact ex_mixed_mem_ranges_ok. Qed.
+Print Assumptions C06_full_solver_mem_ranges_example.
+Theorem C06_full_solver_mem_ranges_conditions_needed :
+  (fwf_inputb [0; 1] [] ex_overlap_out = true /\ farch_okb FX64 ex_overlap_out = true /\ slots_okb ex_overlap_out = false /\
+   match fsolve FX64 [0; 1] [] ex_overlap_out with SOk ms => mem_ranges_ok ms = false | _ => False end /\
+   fwf_inputb [0; 1] [] ex_overlap_in = true /\ farch_okb FX64 ex_overlap_in = true /\ slots_okb ex_overlap_in = false /\
+   match fsolve FX64 [0; 1] [] ex_overlap_in with SOk ms => mem_ranges_ok ms = false | _ => False end) /\
+  (fwf_inputb [6; 7] [] ex_x86_adjacent = true /\ farch_okb FX86 ex_x86_adjacent = true /\ slots_okb ex_x86_adjacent = true /\
+   match fsolve FX86 [6; 7] [] ex_x86_adjacent with SOk ms => mem_ranges_ok ms = false | _ => False end).
+Proof. exact (conj ex_slots_needed ex_x86_needed). Qed.
+Print Assumptions C06_full_solver_mem_ranges_conditions_needed.
+(* Round 6.  The scratch-register conditions of C06_full_solver_total discharged by counting (pigeonhole): decidable counts over the input
+   replace the existential hypotheses. *)
+Theorem C06_full_solver_total_by_counting : forall a wgp wvec vs0, fwf_inputb wgp wvec vs0 = true -> farch_okb a vs0 = true ->
+  NoDup wgp -> NoDup wvec ->
+  (n_cur 0 vs0 < length wgp)%nat ->
+  (forall g, (g = 0 \/ g = 1) -> grp_swap a g = false -> (n_out g vs0 < length (work_of wgp wvec g))%nat) ->
+  exists ms, fsolve a wgp wvec vs0 = SOk ms.
+Proof. exact fsolve_total_by_counting. Qed.
+Print Assumptions C06_full_solver_total_by_counting.
+Theorem C06_full_solver_total_by_counting_example : forall a, a = FX64 \/ a = FA64 -> exists ms, fsolve a ex_wgp ex_wvec ex_mixed = SOk ms.
+Proof. exact ex_mixed_total_by_counting. Qed.
+Print Assumptions C06_full_solver_total_by_counting_example.
+(* Round 6.  COMPLETENESS of the verified validator on the solver's outputs: the symbolic-execution check accepts every destination of every
+   successful run on all four targets (the abstract twin of C06_full_solver_correct), and with the four other conjuncts `validate` accepts the
+   whole sequence - on the proved fragment the per-sequence validation is redundant (a <> FX86 and slots_okb are needed by the byte-range
+   conjunct only). *)
+Theorem C06_full_solver_sym_ok : forall a wgp wvec vs0 ms, fwf_inputb wgp wvec vs0 = true -> farch_okb a vs0 = true -> fsolve a wgp wvec vs0 = SOk ms ->
+  forall v0, In v0 vs0 -> check_move (fmove_of v0) (alookup (sym_exec ms []) (f_out v0)) = true.
+Proof. exact fsolve_sym_ok. Qed.
+Print Assumptions C06_full_solver_sym_ok.
+Theorem C06_full_solver_validates : forall a wgp wvec vs0 ms, fwf_inputb wgp wvec vs0 = true -> farch_okb a vs0 = true -> a <> FX86 ->
+  slots_okb vs0 = true -> fsolve a wgp wvec vs0 = SOk ms -> validate (map fmove_of vs0) (fallowed_locs wgp wvec) ms = true.
+Proof. exact fsolve_validates. Qed.
+Print Assumptions C06_full_solver_validates.
+Theorem C06_full_solver_validates_example :
+  (exists ms, fsolve FX64 ex_wgp ex_wvec ex_mixed = SOk ms /\ validate (map fmove_of ex_mixed) (fallowed_locs ex_wgp ex_wvec) ms = true) /\
+  (exists ms, fsolve FA64 ex_wgp ex_wvec ex_mixed = SOk ms /\ validate (map fmove_of ex_mixed) (fallowed_locs ex_wgp ex_wvec) ms = true).
+Proof. exact ex_mixed_validates_both. Qed.
+Print Assumptions C06_full_solver_validates_example.
 Theorem C06_full_solver_example_avx :
   fwf_inputb [0;6;7] [0;1;2;3] ex_avx = true /\ farch_okb FX64A ex_avx = true /\ farch_okb FX64 ex_avx = false /\
   fsolve FX64A [0;6;7] [0;1;2;3] ex_avx =
@@ -424,3 +487,61 @@ Print Assumptions C06_decode_a64_vec_sem.
 Theorem C06_decode_vec_covers_table : forallb vec_class_covered x86_table = true /\ forallb vec_class_covered a64_table = true.
 Proof. exact isa_vec_covers_table. Qed.
 Print Assumptions C06_decode_vec_covers_table.
+
+(* Round 6.  Completeness direction between the two models: `print` gives every instruction form of the solver model its textual form (mnemonic +
+   operands as the emitter prints them) on the four targets, and the whitelist reads that text back as EXACTLY the instruction. *)
+Theorem C06_decode_print_roundtrip : forall a sp so_sp so_sa i m d s,
+  print a (frame_of a sp so_sp so_sa) i = Some (m, d, s) ->
+  decode_inst (frame_of a sp so_sp so_sa) [] m d s = Some i.
+Proof. exact decode_print. Qed.
+Print Assumptions C06_decode_print_roundtrip.
+Theorem C06_decode_print_examples :
+  print FX64 (frame_of FX64 4 24 0) (IExt (Reg 0 6) (Mem 0 8) ES 8 32 64) = Some ("movsx"%string, OReg 0 6 32, OMem 8 4 32) /\
+  print FX64A (frame_of FX64A 4 24 0) (IExt (Reg 1 1) (Reg 1 3) EZ 256 256 512) = Some ("vmovaps"%string, OReg 1 1 256, OReg 1 3 256) /\
+  print FX86 (frame_of FX86 4 4 0) (IExt (Mem 1 0) (Reg 0 6) EZ 32 32 32) = Some ("mov"%string, OMem 32 4 0, OReg 0 6 32) /\
+  print FA64 (frame_of FA64 31 16 0) (IExt (Reg 0 3) (Mem 0 8) ES 32 64 64) = Some ("ldrsw"%string, OReg 0 3 64, OMem 0 31 24) /\
+  print FX64 (frame_of FX64 4 24 0) (IXchg (Reg 0 6) (Reg 0 7) 32 64) = Some ("xchg"%string, OReg 0 6 32, OReg 0 7 32) /\
+  print FA64 (frame_of FA64 31 16 0) (IXchg (Reg 0 6) (Reg 0 7) 32 64) = None.
+Proof. exact print_examples. Qed.
+Print Assumptions C06_decode_print_examples.
+
+(* ... and every instruction of a successful run of the solver model IS printable: on the proved fragment the whitelist never answers
+   "unmodelled" and reads back exactly the instruction the model describes (AArch64: x31 is SP / ZR, never a work register). *)
+Theorem C06_full_solver_output_decodes : forall a wgp wvec vs0 ms sp so_sp so_sa,
+  fwf_inputb wgp wvec vs0 = true -> farch_okb a vs0 = true ->
+  (a = FA64 -> forall r, In r wgp -> r < 31) ->
+  fsolve a wgp wvec vs0 = SOk ms -> forall i, In i ms ->
+  exists m d s, print a (frame_of a sp so_sp so_sa) i = Some (m, d, s) /\ decode_inst (frame_of a sp so_sp so_sa) [] m d s = Some i.
+Proof. exact fsolve_decodes. Qed.
+Print Assumptions C06_full_solver_output_decodes.
+Theorem C06_full_solver_output_decodes_example :
+  match fsolve FX64 ex_wgp ex_wvec ex_mixed, fsolve FA64 ex_wgp ex_wvec ex_mixed with
+  | SOk m1, SOk m2 =>
+      forallb (roundtripb FX64 (frame_of FX64 4 24 0)) m1 && forallb (roundtripb FA64 (frame_of FA64 31 16 0)) m2 &&
+      (9 =? Z.of_nat (List.length m1)) && (10 =? Z.of_nat (List.length m2))
+  | _, _ => false
+  end = true.
+Proof. exact ex_mixed_roundtrip. Qed.
+Print Assumptions C06_full_solver_output_decodes_example.
+
+(* sequence level: the printed output of a successful run is read back by the sequence decoder behind the check's D stage (DecodeModel.decode,
+   incl. the tracking of the stack-argument pointer, which stays empty for SP-based frames) as exactly the model's output *)
+Theorem C06_full_solver_decode_seq : forall a wgp wvec vs0 ms sp so_sp so_sa,
+  fwf_inputb wgp wvec vs0 = true -> farch_okb a vs0 = true ->
+  (a = FA64 -> forall r, In r wgp -> r < 31) ->
+  fsolve a wgp wvec vs0 = SOk ms ->
+  exists txt, printed a (frame_of a sp so_sp so_sa) ms txt /\ decode (frame_of a sp so_sp so_sa) txt = Some ms.
+Proof. exact fsolve_decode_seq. Qed.
+Print Assumptions C06_full_solver_decode_seq.
+Theorem C06_full_solver_decode_seq_example : forall a, a = FX64 \/ a = FA64 -> forall ms, fsolve a ex_wgp ex_wvec ex_mixed = SOk ms ->
+  exists txt, printed a (frame_of a 4 24 0) ms txt /\ decode (frame_of a 4 24 0) txt = Some ms.
+Proof. exact ex_mixed_decode_seq. Qed.
+Print Assumptions C06_full_solver_decode_seq_example.
+(* FuncDetail::init: the argument-count test in both directions (with C06_assign_matches_abi: under the guard, success iff at most 32 arguments) *)
+Theorem C06_func_detail_arg_limit :
+  (forall e s, (32 < List.length (s_args s))%nat -> func_detail_init e s = R_err E_InvArg) /\
+  (forall e s d, func_detail_init e s = R_ok d -> (List.length (s_args s) <= 32)%nat) /\
+  (func_detail_init (mkEnv X64 0 0) (mkSig 0 255 0 (repeat 38 33)) = R_err E_InvArg /\
+   exists d, func_detail_init (mkEnv X64 0 0) (mkSig 0 255 0 (repeat 38 32)) = R_ok d).
+Proof. exact (conj func_detail_init_arg_limit (conj func_detail_init_ok_limit arg_limit_example)). Qed.
+Print Assumptions C06_func_detail_arg_limit.
